@@ -74,6 +74,11 @@ func (impl Implementation) Dlarf(side blas.Side, m, n int, v []float64, incv int
 			lastv--
 			i -= incv
 		}
+		if incv < 0 && lastv >= 0 {
+			// With a negative increment BLAS addresses the vector from its
+			// end: skip the zeros that were scanned over.
+			v = v[i:]
+		}
 		if applyleft {
 			// Scan for the last non-zero column in C[0:lastv, :]
 			lastc = impl.Iladlc(lastv+1, n, c, ldc)
